@@ -24,6 +24,15 @@ type I interface {
 }
 `
 
+// methods without parameters (empty call records)
+const c05ifaceNoParams = `package p
+
+type I interface {
+	A()
+	B() int
+}
+`
+
 const c05HarnessMod = `module example.com/m
 
 go 1.23
@@ -61,14 +70,14 @@ type c05Result struct {
 
 // c05Build generates a mock with the working tree's mockery, instruments it and
 // builds the harness. Returns the harness binary.
-func c05Build(c *core.Ctx, name, template string, data core.M, mainAsset string, patchTestify bool) (string, *sched.Report, string, error) {
+func c05Build(c *core.Ctx, name, template string, data core.M, mainAsset string, patchTestify bool, ifaceSrc, ifaceAsset string) (string, *sched.Report, string, error) {
 	cfg := core.M{
 		"template": template, "formatter": "goimports", "force-file-write": true, "log-level": "error",
 		"dir": "{{.InterfaceDir}}", "filename": "mock_gen.go", "pkgname": "p", "structname": "MockI",
 		"template-data": data,
 		"packages":      core.M{core.ModPath + "/p": core.M{"interfaces": core.M{"I": core.M{}}}},
 	}
-	m, err := c.NewModule(name, map[string]string{"p/p.go": c05iface, ".mockery.yml": core.YAML(cfg)})
+	m, err := c.NewModule(name, map[string]string{"p/p.go": ifaceSrc, ".mockery.yml": core.YAML(cfg)})
 	if err != nil {
 		return "", nil, "", err
 	}
@@ -88,6 +97,9 @@ func c05Build(c *core.Ctx, name, template string, data core.M, mainAsset string,
 		"verifrt/vrt/vrt.go":      assets.Must("c05/vrt.go.txt"),
 		"verifrt/vsync/vsync.go":  assets.Must("c05/vsync.go.txt"),
 		"main.go":                 assets.Must(mainAsset),
+	}
+	if ifaceAsset != "" {
+		files["iface.go"] = assets.Must(ifaceAsset)
 	}
 	if patchTestify {
 		// scratch copy of testify whose mock.go takes its mutex from vsync
@@ -138,6 +150,8 @@ type c05Variant struct {
 	asset    string
 	testify  bool
 	args     []string
+	ifaceSrc string
+	ifaceAst string
 }
 
 func C05(c *core.Ctx) error {
@@ -146,10 +160,11 @@ func C05(c *core.Ctx) error {
 	}
 	quick := core.Quick(c.Tier)
 	variants := []c05Variant{
-		{"matryer", "matryer", core.M{"with-resets": true}, "c05/matryer_main.go.txt", false, nil},
-		{"matryer-stub", "matryer", core.M{"with-resets": true, "stub-impl": true}, "c05/matryer_main.go.txt", false, []string{"-stub"}},
-		{"testify", "testify", core.M{}, "c05/testify_main.go.txt", true, nil},
-		{"testify-unroll", "testify", core.M{"unroll-variadic": true}, "c05/testify_main.go.txt", true, []string{"-unroll"}},
+		{"matryer", "matryer", core.M{"with-resets": true}, "c05/matryer_main.go.txt", false, nil, c05iface, "c05/iface_i.go.txt"},
+		{"matryer-stub", "matryer", core.M{"with-resets": true, "stub-impl": true}, "c05/matryer_main.go.txt", false, []string{"-stub"}, c05iface, "c05/iface_i.go.txt"},
+		{"matryer-noparams", "matryer", core.M{"with-resets": true}, "c05/matryer_main.go.txt", false, nil, c05ifaceNoParams, "c05/iface_j.go.txt"},
+		{"testify", "testify", core.M{}, "c05/testify_main.go.txt", true, nil, c05iface, ""},
+		{"testify-unroll", "testify", core.M{"unroll-variadic": true}, "c05/testify_main.go.txt", true, []string{"-unroll"}, c05iface, ""},
 	}
 	type runSpec struct {
 		v     c05Variant
@@ -163,7 +178,7 @@ func C05(c *core.Ctx) error {
 	var bmu sync.Mutex
 	core.ParallelFor(len(variants), func(i int) {
 		v := variants[i]
-		bin, rep, gen, err := c05Build(c, "c05-"+v.name, v.template, v.data, v.asset, v.testify)
+		bin, rep, gen, err := c05Build(c, "c05-"+v.name, v.template, v.data, v.asset, v.testify, v.ifaceSrc, v.ifaceAst)
 		if err != nil {
 			if strings.HasPrefix(err.Error(), "GENFAIL") {
 				c.Report("build:"+v.name, err.Error(), map[string]any{"variant": v.name, "generated": gen})
@@ -270,7 +285,7 @@ func C05(c *core.Ctx) error {
 	c.Ev.Set("per_variant", perVariant)
 	c.Ev.Set("exhaustive", exhaustive && len(bins) == len(variants))
 	if quick {
-		c.Ev.Set("bound", "2 threads x <=2 operations and 3 threads x 1 operation over {A,B,ACalls,BCalls,ResetACalls,ResetCalls} (matryer) / {M1,M2,V} with up-front expectations (testify); all schedules with <=2 preemptions")
+		c.Ev.Set("bound", "2 threads x <=2 operations and 3 threads x 1 operation over {A,B,ACalls,BCalls,ResetACalls,ResetBCalls,ResetCalls} (matryer) / {M1,M2,V} with up-front expectations (testify); all schedules with <=2 preemptions")
 	} else {
 		c.Ev.Set("bound", "quick scenario set with unbounded preemptions (every interleaving of the scheduling points), plus 3 threads x <=2 operations with <=2 preemptions")
 	}
